@@ -231,26 +231,202 @@ fn recomp_case(rt: &tokio::runtime::Runtime, dir: &Path, case: &Value, n: usize)
 	let p = path.to_str().unwrap().to_string();
 	let r = catch(|| rt.block_on(convert_tiles_container(Box::new(mk_mem()), mk_cp(), &p)));
 	if matches!(r, Ok(Ok(()))) {
-		let d = match fmt {
-			"versatiles" => indep::decode_versatiles(&std::fs::read(&path).unwrap_or_default()),
-			"pmtiles" => indep::decode_pmtiles(&std::fs::read(&path).unwrap_or_default()),
-			"mbtiles" => indep::decode_mbtiles(&path),
-			"tar" => indep::decode_tar(&std::fs::read(&path).unwrap_or_default()),
-			_ => indep::decode_dir(&path),
-		};
-		let mut tiles: Vec<(u8, u32, u32, i64)> = d.tiles.iter().map(|t| (t.0, t.2, t.1, id_of(&t.3, &d.tc))).collect();
-		tiles.sort();
-		let meta_ok = match (&d.meta, fmt) {
-			(_, "mbtiles") => (d.layout["metadata"]["name"].as_str() == Some(meta_name)) as u8,
-			(Some(m), _) => serde_json::from_slice::<Value>(m).ok().map(|v| (v["name"].as_str() == Some(meta_name)) as u8).unwrap_or(0),
-			(None, _) => 0,
-		};
-		ev["file"] = json!({"skip":0,"ok":d.ok as u8,"tc":d.tc,"tiles":tiles.iter().map(|t| json!([t.0,t.2,t.1,t.3])).collect::<Vec<_>>(),"meta_ok":meta_ok,"err":d.err});
+		ev["file"] = recomp_file(fmt, &path, &raw, meta_name);
 	} else {
 		ev["file"] = json!({"skip":0,"ok":0,"tc":"","tiles":[],"meta_ok":0,"err":format!("{r:?}").chars().take(200).collect::<String>()});
 	}
 	remove_path(&path);
 	ev
+}
+
+/// a container written by a (re)compressing conversion, decoded independently; payload ids are obtained by decoding every
+/// blob with the codec the FILE declares and comparing with the raw source payloads
+fn recomp_file(fmt: &str, path: &Path, raw: &std::collections::HashMap<Vec<u8>, u32>, meta_name: &str) -> Value {
+	let d = match fmt {
+		"versatiles" => indep::decode_versatiles(&std::fs::read(path).unwrap_or_default()),
+		"pmtiles" => indep::decode_pmtiles(&std::fs::read(path).unwrap_or_default()),
+		"mbtiles" => indep::decode_mbtiles(path),
+		"tar" => indep::decode_tar(&std::fs::read(path).unwrap_or_default()),
+		_ => indep::decode_dir(path),
+	};
+	let id_of = |bytes: &[u8], codec: &str| -> i64 {
+		match indep::decode(codec, bytes) {
+			Ok(b) => raw.get(&b).map(|p| *p as i64).unwrap_or(RES_UNKNOWN),
+			Err(_) => RES_UNKNOWN,
+		}
+	};
+	let mut tiles: Vec<(u8, u32, u32, i64)> = d.tiles.iter().map(|t| (t.0, t.2, t.1, id_of(&t.3, &d.tc))).collect();
+	tiles.sort();
+	let meta_ok = match (&d.meta, fmt) {
+		(_, "mbtiles") => (d.layout["metadata"]["name"].as_str() == Some(meta_name)) as u8,
+		(Some(m), _) => serde_json::from_slice::<Value>(m).ok().map(|v| (v["name"].as_str() == Some(meta_name)) as u8).unwrap_or(0),
+		(None, _) => 0,
+	};
+	json!({"skip":0,"ok":d.ok as u8,"tc":d.tc,"tiles":tiles.iter().map(|t| json!([t.0,t.2,t.1,t.3])).collect::<Vec<_>>(),"meta_ok":meta_ok,"err":d.err})
+}
+
+// ------------------------------------------------------------------------------------------ the real CLI
+fn run_cli(bin: &str, args: &[String]) -> (i64, String) {
+	match std::process::Command::new(bin).args(args).stdin(std::process::Stdio::null()).output() {
+		Ok(o) => (o.status.code().map(|c| c as i64).unwrap_or(-1), String::from_utf8_lossy(&o.stderr).chars().rev().take(300).collect::<String>().chars().rev().collect()),
+		Err(e) => (-2, format!("{e}")),
+	}
+}
+
+/// `versatiles convert <options> src.versatiles out.<fmt>` for a conversion case: the options are rendered the way a user
+/// types them; the source file comes from the independent encoder, the output is decoded independently
+fn cli_conv_case(bin: &str, dir: &Path, case: &Value, n: usize) -> Value {
+	let mut c = case.clone();
+	c["fmt"] = json!("mem");
+	c["tf"] = json!("pbf");
+	c["tc"] = json!("gzip");
+	let src = source_of(&c);
+	let o = &case["opts"];
+	let fmt = ["versatiles", "tar", "pmtiles", "directory", "mbtiles", "versatiles"][(n / 3) % 6];
+	let sp = dir.join("cli_src.versatiles");
+	std::fs::write(&sp, indep::encode_versatiles("pbf", "gzip", &src.raw_tiles(), None, &indep::VtChoices { partial_blocks: true, reverse_tiles: false, share_all: false, index_first: false, shuffle_blocks: false, gap: 0 })).unwrap();
+	let path = file_path(dir, fmt, "cli");
+	remove_path(&path);
+	if fmt == "directory" {
+		std::fs::create_dir_all(&path).unwrap(); // a directory target has to exist
+	}
+	let mut args: Vec<String> = vec!["convert".into()];
+	if o["zmin"].as_i64().unwrap() >= 0 {
+		args.push(format!("--min-zoom={}", o["zmin"]));
+	}
+	if o["zmax"].as_i64().unwrap() >= 0 {
+		args.push("--max-zoom".into());
+		args.push(format!("{}", o["zmax"]));
+	}
+	if o["hasgeo"].as_u64().unwrap() == 1 {
+		let g = geo_of(&o["geo"]);
+		// the three separators the option accepts
+		match n % 3 {
+			0 => args.push(format!("--bbox={},{},{},{}", g.0, g.1, g.2, g.3)),
+			1 => {
+				args.push("-b".into());
+				args.push(format!("{} {} {} {}", g.0, g.1, g.2, g.3));
+			}
+			_ => args.push(format!("--bbox={};{};{};{}", g.0, g.1, g.2, g.3)),
+		}
+		let b = o["border"].as_u64().unwrap();
+		if b > 0 {
+			args.push(format!("--bbox-border={b}"));
+		}
+	}
+	if o["flip"].as_u64().unwrap() == 1 {
+		args.push("--flip-y".into());
+	}
+	if o["swap"].as_u64().unwrap() == 1 {
+		args.push("--swap-xy".into());
+	}
+	args.push(sp.to_str().unwrap().into());
+	args.push(path.to_str().unwrap().into());
+	let (exit, err) = run_cli(bin, &args);
+	let mut ev = json!({"ev":"cli","id":n,"tiles":src.tiles_json(),"opts":o,"fmt":fmt,"exit":exit,"args":args[1..args.len()-2],"err":if exit == 0 { String::new() } else { err }});
+	let mut fsrc = source_of(&c);
+	fsrc.fmt = fmt.to_string();
+	if path.exists() {
+		let d = decode_file(&fsrc, &path);
+		ev["file"] = json!({"exists":1,"ok":d["ok"],"tiles":d["tiles"]});
+	} else {
+		ev["file"] = json!({"exists":0,"ok":0,"tiles":[]});
+	}
+	remove_path(&path);
+	ev
+}
+
+/// `versatiles convert [-c <codec>] [-f] src.versatiles out.<fmt>` for a recompression case
+fn cli_recomp_case(bin: &str, dir: &Path, case: &Value, n: usize) -> Value {
+	let mut c = case.clone();
+	c["fmt"] = json!("mem");
+	c["tf"] = json!("pbf");
+	c["tc"] = case["src_tc"].clone();
+	let src = source_of(&c);
+	let src_tc = case["src_tc"].as_str().unwrap();
+	let target = case["target"].as_str().unwrap();
+	let force = case["force"].as_u64().unwrap() == 1;
+	let fmt = case["fmt"].as_str().unwrap();
+	let meta_name = "c04 name \u{e9}";
+	let raw: std::collections::HashMap<Vec<u8>, u32> = src.tiles.iter().map(|t| t.3).collect::<BTreeSet<_>>().into_iter().map(|p| {
+		let (size, compr) = class_of(&c, p);
+		(payload_c(p, size, compr), p)
+	}).collect();
+	let sp = dir.join("cli_rsrc.versatiles");
+	let meta = serde_json::to_vec(&json!({"name": meta_name, "tilejson": "3.0.0"})).unwrap();
+	std::fs::write(&sp, indep::encode_versatiles("pbf", src_tc, &src.raw_tiles(), Some(&meta), &indep::VtChoices { partial_blocks: true, reverse_tiles: false, share_all: false, index_first: false, shuffle_blocks: false, gap: 0 })).unwrap();
+	let path = file_path(dir, fmt, "clir");
+	remove_path(&path);
+	if fmt == "directory" {
+		std::fs::create_dir_all(&path).unwrap();
+	}
+	let mut args: Vec<String> = vec!["convert".into()];
+	if target != "keep" {
+		let name = match target { "none" => "uncompressed", t => t };
+		if n % 2 == 0 {
+			args.push(format!("--compress={name}"));
+		} else {
+			args.push("-c".into());
+			args.push(name.into());
+		}
+	}
+	if force {
+		args.push(if n % 2 == 0 { "-f".into() } else { "--force-recompress".into() });
+	}
+	args.push(sp.to_str().unwrap().into());
+	args.push(path.to_str().unwrap().into());
+	let (exit, err) = run_cli(bin, &args);
+	let mut ev = json!({"ev":"clirecomp","id":n,"tiles":src.tiles_json(),"src_tc":src_tc,"target":target,"force":force as u8,"fmt":fmt,"exit":exit,
+		"args":args[1..args.len()-2],"err":if exit == 0 { String::new() } else { err }});
+	ev["file"] = if path.exists() { recomp_file(fmt, &path, &raw, meta_name) } else { json!({"skip":0,"ok":0,"tc":"","tiles":[],"meta_ok":0,"err":"no output"}) };
+	remove_path(&path);
+	ev
+}
+
+/// runs every `stride`-th case through the real binary
+pub fn cli(input: &str, output: &str, dir: &str, bin: &str, stride: usize) -> Value {
+	let all = read_ndjson(input);
+	let cases: Vec<(usize, &Value)> = all.iter().enumerate().filter(|(i, _)| i % stride == 0).collect();
+	let mut out = Out::create(output);
+	let workers = 12usize.min(cases.len().max(1));
+	let results: Vec<Vec<(usize, Value)>> = std::thread::scope(|sc| {
+		let cases = &cases;
+		let hs: Vec<_> = (0..workers)
+			.map(|w| {
+				sc.spawn(move || {
+					let d = Path::new(dir).join(format!("cli{w}"));
+					std::fs::create_dir_all(&d).unwrap();
+					let mut v = vec![];
+					let mut i = w;
+					while i < cases.len() {
+						let (n, c) = cases[i];
+						let e = match c["k"].as_str().unwrap() {
+							"conv" => cli_conv_case(bin, &d, c, n),
+							"recomp" => cli_recomp_case(bin, &d, c, n),
+							k => panic!("kind {k}"),
+						};
+						v.push((i, e));
+						i += workers;
+					}
+					v
+				})
+			})
+			.collect();
+		hs.into_iter().map(|h| h.join().unwrap()).collect()
+	});
+	let mut slots: Vec<Option<Value>> = vec![None; cases.len()];
+	let mut nonzero = 0u64;
+	for r in results {
+		for (i, e) in r {
+			nonzero += (e["exit"] != 0) as u64;
+			slots[i] = Some(e);
+		}
+	}
+	for s in slots {
+		out.emit(&s.unwrap());
+	}
+	let lines = out.finish();
+	json!({"cases": cases.len(), "events": lines, "nonzero_exit": nonzero})
 }
 
 pub fn replay(input: &str, output: &str, dir: &str) -> Value {
